@@ -31,6 +31,11 @@ def run(ctx):
     for c in concrete:
         check_stream(ctx, c)
     no_global_random(ctx)
+    # streams handed out by the stream-information classes must be objects of their own as well (class-level / module-level / default-argument
+    # objects are one object for every model in the process)
+    from ..statrules import shared_class_state
+    shared_class_state(ctx, 'R12.9', sorted(c for c, ci in prog.classes.items() if ci.module.name == 'streams'),
+                       'draws, re-seeding, reset and restore on one stream act on the stream of every other model: sequences are no longer a function of the seed alone')
 
 
 def generator_field(prog, cname):
